@@ -116,6 +116,11 @@ def make_event(k, p):
         part.survival_weight = 0.0 if (k + j) % 3 == 0 else 0.5              # some weights are exactly zero
         part.interaction_weight = 0.0 if (k + 2 * j) % 4 == 1 else 0.125 * (j + 1)
         parts.append(part)
+    if k % 2 == 1 and len(parts) >= 2:
+        # a tree: one root, the other particles its children (an event has more particles than roots)
+        ev = pyrex.Event(parts[0])
+        ev.add_children(parts[0], parts[1:])
+        return ev
     return pyrex.Event(parts)
 
 
